@@ -1,35 +1,30 @@
-"""C14: Caching2D/3D lose all accuracy when the caching area lies several widths away from the origin.
-The cell polynomial is solved for in area-normalised coordinates ("to avoid float accuracy troubles", docstring) but is then
-re-expanded to monomials x^i y^j z^k in RAW coordinates and evaluated there: with |x|/width ~ 10 the 64 terms cancel
-catastrophically.  Property C14: the cache equals the wrapped function at its sampling nodes and approximates it to
-O(h^2 max|f''|).  Run: /venv/bin/python notes/C14-raw-monomial-cancellation.py"""
+"""C14: Caching2D/3D lose all accuracy when the caching area lies several widths away from the origin.  The cell polynomial is
+solved for in area-normalised coordinates ("to avoid float accuracy troubles", docstring) but is then re-expanded to monomials
+x^i y^j z^k in RAW coordinates and evaluated there: with |x|/width ~ 10 the 4^d terms cancel catastrophically.  Property C14: the
+cache equals the wrapped function at its sampling nodes and approximates it to O(h^2 max|f''|).  /venv/bin/python <this file>"""
 import math
 from cherab.core.math.caching import Caching1D, Caching2D, Caching3D
-
 K = 2 * math.pi          # one period across the unit-width area, max|f| = 1
 
 
 def run(dim, lo):
     calls = []
-
     def g(*p):
         return math.prod(math.sin(K * (v - lo)) for v in p)
 
     def f(*p):                                       # recording wrapper: the call arguments are the sampling nodes
         calls.append(p)
         return g(*p)
-    cls = (Caching1D, Caching2D, Caching3D)[dim - 1]
-    cache = cls(f, (lo, lo + 1.0) * dim, 0.09 if dim == 1 else (0.09,) * dim)     # 11 cells per axis, h = 1/11
+    cache = (Caching1D, Caching2D, Caching3D)[dim - 1](f, (lo, lo + 1.0) * dim, 0.09 if dim == 1 else (0.09,) * dim)   # 11 cells
     mid = (lo + 0.5 + 1e-3,) * dim
     err_mid = abs(cache(*mid) - g(*mid))
     nodes = [p for p in set(calls) if all(lo <= v <= lo + 1 for v in p)]           # sampling nodes inside the area
     err_node = max(abs(cache(*p) - g(*p)) for p in nodes)
-    bound = dim * (1.0 / 11) ** 2 * K ** 2                                         # sum_a h_a^2 max|d2f/da2|
-    print("Caching%dD area [%g, %g]^%d: max |cache(node) - f(node)| = %.3g, |cache - f|(cell centre) = %.3g   (h^2 f'' bound %.2g)"
-          % (dim, lo, lo + 1, dim, err_node, err_mid, bound))
+    print("Caching%dD area [%g, %g]^%d: max|cache(node) - f(node)| = %.3g, |cache - f| near a cell centre = %.3g  (sum h^2 max|f''| = %.2g)"
+          % (dim, lo, lo + 1, dim, err_node, err_mid, dim * (K / 11) ** 2))
 
 
 for dim in (1, 2, 3):
     for lo in (-0.5, 9.5):
         run(dim, lo)
-print("expected: node errors ~1e-12 or below for every area; observed: ~1e-6 in 2-D and O(1) in 3-D for the area [9.5, 10.5]^d")
+print("expected: node errors <= ~1e-10 for every area; observed for [9.5, 10.5]^d: ~4e-5 in 2-D, ~30 (max|f| = 1) in 3-D")
